@@ -97,6 +97,10 @@ def plans_for(b, rng, nflip):
         sp["attkey"]["bind"] = rng.choice(("ok", "ok", "ok_tail"))
         sp["quote"]["bind"] = rng.choice(("ok", "ok", "ok_tail"))
         sp["root"] = {"curve": "P256", "time": "Valid"}
+        # free content of the X.509 elements (serial, extensions, hash, name style) and, for a third
+        # of the plans, validity windows that touch the (frozen) clock exactly
+        sp["vary_content"] = True
+        sp["time_edge"] = rng.random() < 0.34
         sp["rot"] = rng.choice(("right", "right", "samekey")) if b["rot"]["key"] == ROOT \
             else {"wrong": "fresh", "foreign": "foreign"}.get(b["rot"]["key"], "top")
         if spare_kind != "none":
@@ -127,6 +131,8 @@ def plans_for(b, rng, nflip):
                 if e["sigBy"] == "foreign":
                     xs["sig"] = "foreign"       # the chain hangs from the foreign root
                 xs["time"] = e["time"]
+                if n != "spare":
+                    xs["naming"] = e["naming"]
                 if e["curve"] == "Other" and n == "spare":
                     xs["curve"] = "P384"          # (a twin shows the curve of the key it shares)
                 elif e["curve"] == "Other":
@@ -225,7 +231,28 @@ def reported_values(value):
 EMPTY_VALUES = {"custom": [], "quote": [], "fields": {}}
 
 
-def observe(cert, root_pem, target, scratch, tag, via_file=True, pre_root_pem=None):
+def observe(cert, root_pem, target, scratch, tag, via_file=True, pre_root_pem=None, clock=None):
+    """`clock` (ISO string or datetime): run the code with `datetime.now()` of admin.certificate_v2
+    frozen at that instant (boundary validity windows); None = the wall clock."""
+    if clock is None:
+        return _observe(cert, root_pem, target, scratch, tag, via_file, pre_root_pem)
+    import datetime as _dt
+    import admin.certificate_v2 as cv2
+    instant = _dt.datetime.fromisoformat(clock) if isinstance(clock, str) else clock
+    real = cv2.datetime
+
+    class FrozenDateTime(real):
+        @classmethod
+        def now(cls, tz=None):
+            return instant if tz is not None else instant.replace(tzinfo=None)
+    cv2.datetime = FrozenDateTime
+    try:
+        return _observe(cert, root_pem, target, scratch, tag, via_file, pre_root_pem)
+    finally:
+        cv2.datetime = real
+
+
+def _observe(cert, root_pem, target, scratch, tag, via_file=True, pre_root_pem=None):
     """Run the real loader + validator; project the outcome. With `pre_root_pem` the certificate object is
     first asked about that other root of trust and only then about `root_pem` (the verdict must be a
     function of certificate and root, not of what the object was asked before)."""
@@ -291,19 +318,23 @@ def run_task(task):
         cert, abstract, applied = certv2.apply_flips(cert, mat, plan["flips"], rng)
     else:
         cert, root_pem, mat, abstract, applied = certv2.realise(plan, rng)
-    obs = observe(cert, root_pem, abstract["target"], scratch, "t%d" % tid, via_file=(tid % 5 != 4))
+    clock = mat.get("clock").isoformat() if mat.get("clock") is not None else None
+    obs = observe(cert, root_pem, abstract["target"], scratch, "t%d" % tid, via_file=(tid % 5 != 4),
+                  clock=clock)
     t = {"id": tid, "cert": abstract["cert"], "rot": abstract["rot"], "target": abstract["target"],
          "loaded": obs["loaded"], "valid": obs["valid"], "failing": obs["failing"],
          "reported": obs["reported"],
          "signed": signed_values(mat) if obs["valid"] else EMPTY_VALUES,
          "unspecified": abstract["unspecified"], "exc": obs["exc"], "applied": applied,
-         "meta": meta,
-         "concrete": zlib.compress(json.dumps({"certificate": cert, "root_pem": root_pem}).encode())}
+         "meta": dict(meta, frozen_clock=clock is not None),
+         "concrete": zlib.compress(json.dumps({"certificate": cert, "root_pem": root_pem,
+                                               "clock": clock}).encode())}
     # the same question put to an object that was first asked about another root of trust
     roots = mat.get("root_pem") if isinstance(mat, dict) else None
     if isinstance(roots, dict) and roots.get("right") and roots.get("fresh"):
         alt = roots["fresh"] if root_pem == roots["right"] else roots["right"]
-        obs2 = observe(cert, root_pem, abstract["target"], scratch, "q%d" % tid, via_file=False, pre_root_pem=alt)
+        obs2 = observe(cert, root_pem, abstract["target"], scratch, "q%d" % tid, via_file=False,
+                       pre_root_pem=alt, clock=clock)
         if (obs2["loaded"], obs2["valid"], obs2["reported"]) != (obs["loaded"], obs["valid"], obs["reported"]):
             t2 = dict(t)
             t2.update(id=tid + 50000000, loaded=obs2["loaded"], valid=obs2["valid"], failing=obs2["failing"],
@@ -354,6 +385,8 @@ def defects_of(abstract):
                 out.append("x509:time=%s" % e["time"])
             if e["curve"] != "P256":
                 out.append("x509:curve=Other")
+            if e.get("naming", "canon") != "canon":
+                out.append("x509:naming=%s" % e["naming"])
         if e["sigBy"] == "foreign":
             out.append("x509:issued-by-foreign-root" + ("" if e["by"] == ROOT else "+reparent"))
         elif e["sigBy"] == "other":
@@ -408,6 +441,16 @@ def random_plan(rng):
         if rng.random() < 0.15:
             xs["curve"] = "P384" if i < d - 1 else rng.choice(("P384", "RSA"))
     sp["root"] = {"curve": rng.choice(("P256", "P256", "P384")), "time": "Valid"}
+    sp["vary_content"] = rng.random() < 0.8
+    sp["time_edge"] = rng.random() < 0.25
+    for i, xs in enumerate(sp["x509"]):
+        if rng.random() < 0.3:
+            opts = ["selfissued", "likeparent", "nomatch", "rootsubject"]
+            if i > 0:
+                opts.append("rootissuer")
+            if d >= 3 or (d == 2 and i == 0):
+                opts.append("dupsubject")
+            xs["naming"] = rng.choice(opts)
     a, q = sp["attkey"], sp["quote"]
     a["name"] = fresh_name("attestation")
     a["auth_len"] = rng.choice((1, 16, 32, 100, 1000, rng.randrange(1, 1001)))
@@ -497,6 +540,7 @@ def judge(res, traces, label):
         if v["clause"] in ("Malformed", "Stuck"):
             raise core.MachineryError("trace %s of %s is %s: %s" % (t["id"], label, v["clause"],
                                                                    json.dumps(t["cert"])[:400]))
+        t["accepted"] = bool(v["ok"])
         if v["ok"]:
             accepted += 1
             drift += 1 if v.get("at") == 1 else 0
@@ -518,8 +562,9 @@ def selftest_trace_spec(traces, next_id):
     """DESIGN 3.7(a): accepted observations with one logged field corrupted must be rejected by the
     trace specification (otherwise the judge is blind)."""
     import copy
-    val = next((t for t in traces if t["valid"] and not t["unspecified"]), None)
-    inv = next((t for t in traces if t["loaded"] and not t["valid"] and not t["unspecified"]), None)
+    # only observations TLC accepted are corrupted (a rejected one is a violation, reported as such)
+    val = next((t for t in traces if t["valid"] and t.get("accepted")), None)
+    inv = next((t for t in traces if t["loaded"] and not t["valid"] and t.get("accepted")), None)
     if val is None or inv is None:
         raise core.MachineryError("selftest: no valid / invalid observation to corrupt")
     neg = []
@@ -551,7 +596,14 @@ def run(ctx):
         "data / custom data / key coordinate is a broken signature / binding / key",
         "the code does not distinguish two members of one abstract class beyond the seeded samples "
         "(key material is fresh OS randomness per run; positions, masks and variants are seeded)",
-        "validity windows are >= 1 day away from the wall clock on either side",
+        "validity windows are >= 1 day away from the wall clock on either side, except in the runs "
+        "with the code's clock (admin.certificate_v2.datetime.now) frozen by the harness at a whole "
+        "second T: there Valid windows touch T exactly (not_before == T and/or not_after == T: the "
+        "unchanged code accepts equality, as RFC 5280's inclusive period), Expired is not_after == "
+        "T - 1 s, NotYet is not_before == T + 1 s",
+        "names, serial numbers, extensions and signature hash of the X.509 elements are free content: "
+        "the reference semantics never reads them (every naming pattern is an explicit Env choice of "
+        "the model; serial / extensions / hash / name style are seeded boundary-first)",
         "the root of trust handed to the validator is inside its own validity period (checking the "
         "root itself is the verify command's job, C08)",
         "X.509 elements issued under an RSA key are not exercised (the text does not fix a signature "
@@ -596,12 +648,25 @@ def run(ctx):
                                       for o in ("valid", "invalid", "loaderror")}
     # 3. concretise + run the real code -------------------------------------------------------------
     if ctx.quick:
-        must = [b for b in behaviours if b["ndef"] <= 1 or b["outcome"] == "valid"]
-        rest = [b for b in behaviours if not (b["ndef"] <= 1 or b["outcome"] == "valid")]
+        def timedef(b):
+            return any(e["time"] in ("Expired", "NotYet") for n, e in b["cert"].items()
+                       if n not in ("spare", ROOT))
+
+        def plain(b):
+            return "spare" not in b["cert"] and ROOT not in b["cert"]
+
+        def is_must(b):
+            # every single deviation, every valid certificate with canonical names, and every
+            # (naming x time defect) pair at every depth and position of the plain chains
+            return (b["ndef"] <= 1 or (b["nren"] == 0 and b["outcome"] == "valid")
+                    or (b["nren"] == 1 and timedef(b) and plain(b)))
+        must = [b for b in behaviours if is_must(b)]
+        rest = [b for b in behaviours if not is_must(b)]
         ctx.rng.shuffle(rest)
-        nl = [b for b in rest if b["outcome"] != "loaderror"][:1800]
-        le = [b for b in rest if b["outcome"] == "loaderror"][:300]
-        chosen = must + nl + le
+        rt = [b for b in rest if b["nren"] == 1 and timedef(b)][:200]
+        nl = [b for b in rest if b["outcome"] != "loaderror" and not (b["nren"] == 1 and timedef(b))][:1300]
+        le = [b for b in rest if b["outcome"] == "loaderror"][:250]
+        chosen = must + rt + nl + le
         nflip = 3
     else:
         chosen = behaviours
@@ -636,7 +701,7 @@ def run(ctx):
     # 4. byte sweep of one representative chain ---------------------------------------------------------
     sweep_rng = random.Random("C07:sweep:%d" % ctx.seed)
     global SWEEP_BASE
-    SWEEP_BASE = certv2.build(certv2.default_spec(3), sweep_rng)
+    SWEEP_BASE = certv2.build(dict(certv2.default_spec(3), vary_content=True), sweep_rng)
     base_cert = SWEEP_BASE[0]
     stride = ctx.pick(6, 1)
     off = sweep_rng.randrange(stride)
@@ -692,6 +757,9 @@ def run(ctx):
     res.coverage["valid_values_compared_bytewise_in_TLC"] = res.coverage["observed_outcomes"]["valid"]
     res.coverage["unexpected_exceptions"] = sorted({t["exc"] for t in all_traces
                                                     if t["exc"] and t["exc"].startswith("validate")})[:5]
+    res.coverage["frozen_clock_boundary_runs"] = sum(1 for t in all_traces if t["meta"].get("frozen_clock"))
+    res.coverage["noncanonical_naming_certificates"] = sum(
+        1 for t in all_traces if any(e.get("naming", "canon") not in ("canon", "na") for e in t["cert"].values()))
     res.coverage["distinct_abstract_classes_hit"] = len({"+".join(defects_of(t)) for t in all_traces})
     for t in (traces[:1] + [t for t in traces if t["valid"]][:1] + [t for t in traces if t["applied"]][:1]
               + sweep[:1] + rnd[:2]):
@@ -708,7 +776,7 @@ def replay(ctx, path):
     rp = data["replay"]
     ab = rp["abstract"]
     obs = observe(rp["concrete"]["certificate"], rp["concrete"]["root_pem"], ab["target"], ctx.scratch,
-                  "replay")
+                  "replay", clock=rp["concrete"].get("clock"))
     t = {"id": 1, "cert": ab["cert"], "rot": ab["rot"], "target": ab["target"], "loaded": obs["loaded"],
          "valid": obs["valid"], "failing": obs["failing"], "reported": obs["reported"],
          "signed": rp["signed"] if obs["valid"] else EMPTY_VALUES}
